@@ -406,3 +406,9 @@ from vlib import lifecheck as _life   # noqa: E402
          "assigned again equals that of a fresh object on the samples now held: Periodogram")
 def c01_life(ctx, case):
     _life.body(ctx, case)
+
+
+@sub("C01.life_grid", enum=_life.life_enum(['Periodogram']), exhaustive=True, shards_quick=2, shards_thorough=2,
+     doc="the same on a fixed grid: every action x real/complex x default/centred layout for Periodogram")
+def c01_life_grid(ctx, case):
+    _life.body(ctx, case)
